@@ -157,6 +157,10 @@ def run(ctx):
             fl = rng.choice([2, 2, 2, 6, 0, 4, 0x202])
             sub = rng.randint(0, maxsub) if rng.random() < 0.95 else maxsub + 1
             pid = rng.choice([0, 1, 0xFF, 0x100, 0xFFFF, rng.randint(0, 65535)]); se = rng.randint(0, 255)
+            if j and rng.random() < 0.25 and sess["ops"] and sess["ops"][-1][0] in ("enc", "dec"):
+                # the same ids again, back to back (a datagram delivered twice, a peer repeating an unreliable packet, the 16-bit
+                # counter coming round): every unreliable packet is encrypted from the start of ITS key stream
+                ty, fl, sub, pid, se = sess["ops"][-1][1:6]
             n = rng.choice([0, 1, 2, 7, 8, 100, 1399, 1400, rng.randint(0, 1400), rng.randint(0, 60)])
             payload = compressible(rng, n)
             p = prudp.PRUDPPacket(ty, fl); p.substream_id = sub; p.packet_id = pid; p.session_id = se; p.payload = payload
